@@ -1,6 +1,11 @@
 """Source of MANIFEST.json (python engine/manifest_gen.py)."""
 REALS = "C doubles / numpy float64 are decided as exact reals (rounding is outside the claim); geometry is concrete and listed in the evidence; "
 CHECKS = [
+    {"id": "C13", "engine": "llsym", "category": "translation_validation",
+     "technique": "LLVM-IR symbolic interpretation of all 19 kernels from the real glue: (a) recorded real calls re-executed with full memory/overflow obligations and compared with the compiled build, (b) symbolic index maps under the Python-layer contract with bounds obligations discharged by z3 (LIA+arrays) and ASan/UBSan replay, (c) two-symbolic-iteration race queries on every clang-outlined OpenMP body",
+     "text": "Translation validation of the compiled kernels against the interpreter's semantics of their own IR plus bounded symbolic model checking of memory safety (all index-map values within the Python contract, small shapes) and of data-race freedom (any two iterations of each of the 11 parallel loops), which with per-iteration determinism gives independence of thread count; OpenMP-lowered IR equals serial IR on one thread.",
+     "design_ref": "DESIGN.md 3/C13",
+     "note": "shapes bounded (n_satom<=4..8, meshes 2x2x1/2x2x2); contracts for index maps are the stated value-range/consistency clauses; nanobind's own conversion layer is replaced by a stand-in; a race verdict is a property of the IR under a sequentially consistent two-iteration model and need not manifest in a concrete run."},
     {"id": "C04", "engine": "symnp",
      "technique": "symbolic execution of Supercell/TrimmedCell/SNF3x3 Python code on z3-backed scalars (reals for lattice/positions/masses, integers for the SNF matrix) with decision-replay forking; LRA/LIRA/NIA queries per path; concrete replay",
      "text": "Bounded symbolic model checking: for each listed integer supercell matrix, both construction algorithms are executed on a symbolic unit cell; on every path the solver proves lattice = S^T L, each atom = its unit-cell atom + integer lattice vector, count = |det S| n, images distinct, attributes carried over and classic/SNF agreement. SNF3x3 is explored for all integer matrices with entries in [-1,1] (upper-triangular in quick) and proved to return a Smith normal form on every path. Primitive maps are evaluated as ground facts.",
@@ -33,7 +38,7 @@ CHECKS = [
      "note": REALS + "clang -O0 IR semantics as implemented by engine/llsym.py, validated at start against the compiled code; nanobind itself replaced by a stand-in header."},
 ]
 _NA = "not yet claimed in this revision (check under construction; see DESIGN.md section 3)"
-NOT_APPLICABLE = [{"property_id": "C%02d" % k, "reason": _NA} for k in range(1, 21) if k not in (2, 3, 4, 6, 7, 10)]
+NOT_APPLICABLE = [{"property_id": "C%02d" % k, "reason": _NA} for k in range(1, 21) if k not in (2, 3, 4, 6, 7, 10, 13)]
 for n in NOT_APPLICABLE:
     if n["property_id"] == "C18":
         n["reason"] = "whole-program CLI runs through argparse, file I/O and yaml with string-typed settings: no solver-decidable core (DESIGN.md section 4)"
